@@ -130,6 +130,9 @@ pub fn mix_for(focus: &str) -> Mix {
             m.last_will = 2;
         }
         "C15" => {
+            // a session's own registrations are writes like any other: the token must grant them
+            m.grave_goods = 3;
+            m.last_will = 3;
             m.get = 8;
             m.cget = 3;
             m.pget = 8;
